@@ -48,6 +48,48 @@ class Result:
 # solver back ends
 
 
+# -----------------------------------------------------------------------------------
+# np.empty in the bounded runs: arbitrary contents for real
+
+UNINITIALISED_BASE, UNINITIALISED_STEP = 7.77e200, 1e195
+_GARBAGE_COUNTER = [0]
+
+
+def is_uninitialised_garbage(values):
+    """True where a value is one of the sentinels that the bounded runs put into np.empty arrays (an entry that was never written)."""
+    v = rnp.asarray(values, dtype=float)
+    return (v >= UNINITIALISED_BASE) & (v <= UNINITIALISED_BASE + 1e6 * UNINITIALISED_STEP)
+
+
+class _garbage_in_uninitialised_arrays:
+    """While a scenario runs natively, numpy.empty / numpy.empty_like hand out floating-point arrays filled with a sentinel that
+    differs from call to call (process-wide counter): what np.empty promises is 'arbitrary contents', and zero-filled fresh pages
+    hide reads of entries that were never written.  Code that writes every entry before reading it is unaffected."""
+
+    def __enter__(self):
+        self.saved = (rnp.empty, rnp.empty_like)
+        real_empty, real_like = self.saved
+
+        def fill(a):
+            if isinstance(a, rnp.ndarray) and a.dtype.kind == "f" and a.size:
+                _GARBAGE_COUNTER[0] = (_GARBAGE_COUNTER[0] + 1) % 1000000
+                a[...] = UNINITIALISED_BASE + _GARBAGE_COUNTER[0] * UNINITIALISED_STEP
+            return a
+
+        def empty(*a, **k):
+            return fill(real_empty(*a, **k))
+
+        def empty_like(*a, **k):
+            return fill(real_like(*a, **k))
+
+        rnp.empty, rnp.empty_like = empty, empty_like
+        return self
+
+    def __exit__(self, *exc):
+        rnp.empty, rnp.empty_like = self.saved
+        return False
+
+
 Z3_TIMEOUT_MS = int(os.environ.get("ROPTVC_Z3_TIMEOUT_MS", "8000"))
 Z3_RETRY_FACTOR = int(os.environ.get("ROPTVC_Z3_RETRY_FACTOR", "8"))
 MAX_SOLVER_RETRIES = 4  # per case (one process per case)
@@ -269,10 +311,19 @@ class TSym(TBase):
         self.inputs[name] = r
         return r
 
-    def real(self, name, shape=(), nan=None, kinds=None, lo=None, hi=None, sdtype=rnp.float64):
+    def real(self, name, shape=(), nan=None, kinds=None, lo=None, hi=None, sdtype=rnp.float64, ge=None, le=None):
         """Finite symbolic reals.  nan: None | bool array (concrete NaN pattern) | 'sym'.
-        kinds: optional array of 'fin' | '+inf' | '-inf' | 'nan' per element (concrete special values)."""
+        kinds: optional array of 'fin' | '+inf' | '-inf' | 'nan' per element (concrete special values).
+        ge / le: element-wise pre-condition value >= ge / value <= le against other (symbolic or infinite) values: an assumption
+        here, satisfied by construction in the bounded runs."""
         c = sym.ctx()
+        if ge is not None or le is not None:
+            r = self.real(name, shape, nan=nan, kinds=kinds, lo=lo, hi=hi, sdtype=sdtype)
+            if ge is not None:
+                self.assume(self.all(r >= ge) if shape != () else r >= ge)
+            if le is not None:
+                self.assume(self.all(r <= le) if shape != () else r <= le)
+            return r
 
         def mk(nm, idx):
             if kinds is not None:
@@ -499,7 +550,36 @@ class TConc(TBase):
             return self.rng.integers(-6, 7, size=shape) / 2.0
         return self.rng.normal(size=shape) * 3.0
 
-    def real(self, name, shape=(), nan=None, kinds=None, lo=None, hi=None, sdtype=rnp.float64):
+    def real(self, name, shape=(), nan=None, kinds=None, lo=None, hi=None, sdtype=rnp.float64, ge=None, le=None):
+        if ge is not None or le is not None:
+            shape_t = tuple(shape) if not isinstance(shape, int) else (shape,)
+            g = rnp.broadcast_to(rnp.asarray(-rnp.inf if ge is None else ge, dtype=float), shape_t)
+            l = rnp.broadcast_to(rnp.asarray(rnp.inf if le is None else le, dtype=float), shape_t)
+            v = rnp.asarray(self.real(name, shape, nan=nan, kinds=kinds, lo=lo, hi=hi, sdtype=sdtype), dtype=float).reshape(shape_t).copy()
+            if not (self.given_inputs is not None and name in self.given_inputs):
+                # the pre-condition by construction: a point of [ge, le] (the end points themselves now and then)
+                u = self.rng.uniform(0.0, 1.0, size=shape_t)
+                edge = self.rng.integers(0, 6, size=shape_t)
+                u = rnp.where(edge == 0, 0.0, rnp.where(edge == 1, 1.0, u))
+                for idx in rnp.ndindex(*shape_t):
+                    if not rnp.isfinite(v[idx]):
+                        continue
+                    if rnp.isfinite(g[idx]) and rnp.isfinite(l[idx]):
+                        v[idx] = g[idx] + u[idx] * (l[idx] - g[idx]) if g[idx] <= l[idx] else v[idx]
+                    elif rnp.isfinite(g[idx]):
+                        v[idx] = g[idx] + (0.0 if edge[idx] == 0 else abs(v[idx]))
+                    elif rnp.isfinite(l[idx]):
+                        v[idx] = l[idx] - (0.0 if edge[idx] == 1 else abs(v[idx]))
+                    if lo is not None:
+                        v[idx] = max(v[idx], lo)
+                    if hi is not None:
+                        v[idx] = min(v[idx], hi)
+            fin = rnp.isfinite(v)
+            if not bool(rnp.all(~fin | ((v >= g) & (v <= l)))):
+                raise InfeasiblePath()
+            v = float(v) if shape_t == () else v
+            self.inputs[name] = v
+            return v
         if self.given_inputs is not None and name in self.given_inputs:
             v = rnp.array(self.given_inputs[name], dtype=float)
             if shape == ():
@@ -805,7 +885,7 @@ class Engine:
         T = TConc(case, self, rng, given)
         T.case_id = case_id
         try:
-            with rnp.errstate(all="ignore"):
+            with rnp.errstate(all="ignore"), _garbage_in_uninitialised_arrays():
                 scenario(T, case)
         except InfeasiblePath:
             return T, "skipped"
